@@ -38,7 +38,7 @@ def gen_case(run, i):
         src = rasters.Grid(sx0, sytop, ps, ps, sw, sh, src.unit)
         ref = rasters.Grid(rx0, rytop, pr, pr, rw, rh, src.unit)
     return dict(i=i, family=family, src=src.to_dict(), ref=ref.to_dict(), model=model, upsampling=ups,
-                kernel=rng.choice([(1, 1), (3, 3), (3, 5), (5, 3), (5, 5), (9, 5), (7, 7)]) if model == 'gain'
+                kernel=[(3, 7), (1, 1), (7, 3), (3, 3), (1, 5), (3, 5), (9, 3), (5, 5), (5, 1), (9, 5), (7, 7), (5, 3)][(i // 2) % 12] if model == 'gain'
                 else rng.choice([(3, 3), (3, 5), (5, 5), (5, 3), (9, 5)]),
                 halvings=sorted(rng.sample([1, 2, 3, 4, 5, 6], 3)), holes=rng.random() < 0.5,
                 threads=rng.choice([1, 2]), nb=rng.choice([1, 1, 2]))
@@ -139,6 +139,21 @@ def run(run: common.Run):
                 run.fail(sub, f'parameter image depends on the block partition ({nblk} blocks): max abs diff {d} at band/row/col {k}',
                          signature=dict(kind='param-partition'))
                 continue
+            # (a') the R² band is part of the parameter image: same validity, same numbers (float32 expansion of 1 - RSS/TSS in
+            # the kernel sums: compared relative to max(1, |R²|); one-pixel kernels have zero variance, their R² is noise)
+            if res.param.shape[0] >= 3 * nb and tuple(case['kernel']) != (1, 1):
+                a, b = res.param[2 * nb:3 * nb].astype('float64'), base.param[2 * nb:3 * nb].astype('float64')
+                fa, fb = np.isfinite(a), np.isfinite(b)
+                both = fa & fb
+                rel = np.zeros(a.shape)
+                rel[both] = np.abs(a[both] - b[both]) / np.maximum(1.0, np.abs(b[both]))
+                run.hist['R2 band compared between partitions'] += 1
+                if not np.array_equal(np.isnan(a), np.isnan(b)) or rel.max() > (1e-6 if exact else 2e-3):
+                    k = np.unravel_index(np.argmax(np.where(both, rel, np.inf * (fa != fb))), a.shape) if (fa != fb).any() else \
+                        np.unravel_index(np.argmax(rel), a.shape)
+                    run.fail(sub, f'R2 band of the parameter image depends on the block partition ({nblk} blocks): {float(a[k])!r} vs '
+                             f'{float(b[k])!r} at band/row/col {tuple(int(x) for x in k)}', signature=dict(kind='param-partition', band='r2'))
+                    continue
             # (b) / (c) corrected image
             if not np.array_equal(res.corr_mask, base.corr_mask):
                 run.fail(sub, 'corrected image validity depends on the block partition', signature=dict(kind='corr-mask'))
